@@ -63,7 +63,7 @@ def check_curve(ctx, sy, grid, mean, inp):
     ob = "compute_rise_curve = model riseCurve at Float on the recorded integrals"
     if "parameters" in inp and not check_sy_is_the_parameter_sets(ctx, sy, inp["parameters"], grid, inp):
         return [float(v) for v in sr.compute_rise_curve(sy, np.array(grid, dtype=float), mean)]
-    g = np.array(grid, dtype=float)
+    g = common.any_layout(ctx.rng, np.array(grid, dtype=float))
     with sim.record_integrate(sy) as calls:
         sim.dirty_heap(ctx.rng, len(g))
         W = [float(v) for v in sr.compute_rise_curve(sy, g, mean)]
